@@ -152,8 +152,18 @@ class Chain(Unit):
         final_calls = []
         final_exc = AbsExc(E.new_int('final-raised'))
 
+        # a final handler may start a new connection on the same object ("unless a handler has already started a new
+        # one"): the REAL _connect runs (socket layer modelled) - whatever it resets, the record of the exception that ended
+        # the old thread must be on the connection afterwards (seeded change C14-r10: _connect clears the record, which the
+        # handler chain now writes BEFORE the final handler)
+        reconnects = bool(E.fork(2, 'final-handler-reconnects')) if fk == 2 else False
+
         def final(exc, exc_info):
             final_calls.append((exc, exc_info))
+            if reconnects:
+                from .c16 import install_socket_layer
+                install_socket_layer(I, [], 'ok')
+                I.call(raw(Connection, '_connect'), conn)
             if fk == 3:
                 raise final_exc
         final_handler = [None, False, final, final][fk]
@@ -221,7 +231,9 @@ class Chain(Unit):
 
     def replay(self, model, label):
         import random
-        rp = None
+        rp = replay_final_reconnects()
+        if rp['confirmed']:
+            return rp
         for seed in range(500):
             rp = replay_chain(random.Random(seed))
             if rp['confirmed']:
@@ -229,7 +241,10 @@ class Chain(Unit):
         return rp
 
     def bounded(self, rng, tier):
-        fails, cnt = [], 0
+        fails, cnt = [], 2
+        rp = replay_final_reconnects()
+        if rp['confirmed']:
+            fails.append(dict(call=rp['call'], observed=rp['observed'], witness='reconnecting-handler'))
         for _ in range(500 if tier == 'quick' else 5000):
             cnt += 1
             rp = replay_chain(rng)
@@ -384,6 +399,46 @@ def replay_chain(rng):
         bad = 're-raised %r instead of %r' % (v, cur)
     return dict(confirmed=bad is not None, call='_handle_exception with %d handlers, final kind %d' % (len(specs), fk),
                 observed=bad or 'conforms')
+
+
+def replay_final_reconnects():
+    """A final handler (or a registered one) that starts a new connection on the same object - the real _connect against a
+    local listening socket - while an exception is being handled: the exception is on record afterwards."""
+    import socket
+    srv = socket.socket()
+    srv.bind(('127.0.0.1', 0))
+    srv.listen(4)
+    port = srv.getsockname()[1]
+    try:
+        for who in ('final', 'registered'):
+            conn = Connection('127.0.0.1', port, username='u')
+            conn.reactor = types.SimpleNamespace(handle_exception=lambda e, i: False)
+            conn.networking_thread = types.SimpleNamespace(interrupt=True)
+            conn.new_networking_thread = None
+
+            def reconnecting(exc, exc_info, conn=conn):
+                conn._connect()
+            if who == 'final':
+                conn.handle_exception = reconnecting
+            else:
+                conn.handle_exception = False
+                conn.register_exception_handler(reconnecting, Exception)
+            conn.disconnect = lambda immediate=False: None
+            e0 = E1('original')
+            k, v = native_call(conn._handle_exception, e0, (E1, e0, None), timeout=5.0)
+            sock = conn.__dict__.get('socket')
+            try:
+                if sock is not None:
+                    sock.close()
+            except OSError:
+                pass
+            if k != 'ok' or conn.exception is not e0 or conn.exc_info is None or conn.exc_info[1] is not e0:
+                return dict(confirmed=True, call='_handle_exception(E1) with a %s handler that reconnects (real _connect to a '
+                            'local listener)' % who, observed='%s %r; connection.exception = %r, exc_info = %r'
+                            % (k, v, conn.exception, conn.exc_info))
+    finally:
+        srv.close()
+    return dict(confirmed=False, call='reconnecting handlers', observed='the exception stays on record')
 
 
 class RegisterHandler(Unit):
